@@ -21,7 +21,9 @@ MANIFEST = {
     "technique": "Lean 4 proof (streaming algorithm = set-based specification) + differential correspondence with the real tool",
 }
 
-REQUIRED = ["KV.C05.adjust_stream_eq", "KV.C05.stats_eq", "KV.C05.prune_exact", "KV.C05.prune_exact_top",
+REQUIRED = ["KV.C05.ngram_set", "KV.C05.adjust_stream_eq", "KV.C05.adjust_stream_eq_corpus", "KV.C05.stats_eq",
+            "KV.C05.stats_eq_corpus", "KV.C05.prune_exact", "KV.C05.prune_exact_top", "KV.C05.written_set",
+            "KV.C05.trueCount_textbook", "KV.C05.adjCount_textbook", "KV.C05.pruned_eq_false_iff",
             "KV.C05.stats_eq_stream", "KV.C05.stats_eq_tree", "KV.C05.stats_eq_unfixed_false", "KV.C05.flush_adjusted_tree",
             "KV.C05.keep_specials_tree", "KV.C05.discounts_eq", "KV.C05.chenGoodman_value", "KV.C05.special_ids"]
 
